@@ -1452,6 +1452,28 @@ class Model:
         out_arguments = list(itertools.chain.from_iterable(self.delay_arguments))
 
         if hasattr(self, "_states_vector"):
+            # The delay arguments are expressed in the symbols of the
+            # individual variables, whereas this function takes the state
+            # vectors as arguments.
+            symbols, values = [], []
+            for vector, variables in [
+                (self._states_vector, self.states),
+                (self._der_states_vector, self.der_states),
+                (self._alg_states_vector, self.alg_states),
+                (self._inputs_vector, self.inputs),
+            ]:
+                offset = 0
+                for symbol in self._symbols(variables):
+                    n = symbol.numel()
+                    symbols.append(symbol)
+                    values.append(ca.reshape(vector[offset : offset + n], symbol.shape))
+                    offset += n
+
+            if len(out_arguments) > 0:
+                out_arguments = ca.substitute(
+                    [ca.MX(argument) for argument in out_arguments], symbols, values
+                )
+
             return self._expand_mx_func(
                 ca.Function(
                     "delay_arguments",
